@@ -373,14 +373,14 @@ SEED_COLS = ["a INT", "a", "\"a b\" VARCHAR(10) NOT NULL", "[a] TEXT DEFAULT 'x,
              "a\tINT", "a INT REFERENCES o(x)", "a NATIVE CHARACTER(70) COLLATE NOCASE", "a N", "a  INT  NOT  NULL",
              "a VARCHAR(10)NOT NULL", "a INT GENERATED ALWAYS AS (1) VIRTUAL", "primaryEmail TEXT", "a NOT_SPECIFIED",
              '"x""y" INT', "'x''y' TEXT", "`x``y` REAL", '"""" INT', '"a"" INT', '"a""', '"""' , "'a", "`a``",
-             '"a\nb" INT', '"a""b""c', '[x""y] INT', "[a\nb] INT", "a /*/ c */ INT", "a /*/ INT", "a /*/*/ INT", "a/*/*/INT", "a INT /*/"]
+             '"a\nb" INT', '"a""b""c', '[x""y] INT', "[a\nb] INT", "[[a] INT", "[a[] TEXT", "[[]", "a /*/ c */ INT", "a /*/ INT", "a /*/*/ INT", "a/*/*/INT", "a INT /*/"]
 SEED_PAREN = ["(a)", "(a(b)c)", "('x)')", "(\"x)\")", "(`)`)", "(--)\n)", "(/*)*/)", "(a-b)", "(a/*c*/)", "((())())", "(a", "()",
               "(a)b)", "(-", "(/", "(a/b)", "([)])", "('it''s')", "(a /*/ c */)", "(/*/)", "(/*/*/)", "(/*/ ) */)", "(/*/)*/)",
               "(a /*/ b) /*/*/)", "(/***/)", "(/*/**/)"]
 SEED_COMMENT = ["-- c\nrest", "/* c */rest", "--", "/*", "/*/", "--\n", "/**/", "- - c", "/* a /* b */ c */", "x",
                 "/*/ c */rest", "/*/*/rest", "/*/*", "/***/", "/*/ */ */", "/**/*/"]
 SEED_NAME = ["t(a)", "t (a)", "\"t t\"(a)", "[t](a)", "`t`(a)", "'t'(a)", "t\n(a)", "t--c\n(a)", "t/*c*/(a)", "t\t(a)", "t.u(a)",
-             "t", "", "\"t", "[t", "t-1", "t/2", "\"t\"\"u\"(a)", "[[t]](a)", "``(a)", "[a\nb](a)",
+             "t", "", "\"t", "[t", "t-1", "t/2", "\"t\"\"u\"(a)", "[[t]](a)", "``(a)", "[a\nb](a)", "[[t](a)", "[t[](a)", "[[](a)", "[a\nb",
              '""""(a)', '"a""', '"""', '"a""b', "'it''s'(a)", "`a``b`(a)", "''''", "'a\nb'(a)", '"a"b"(a)',
              '"a""b""c', '"t""""u" (a)', "'t' ON u", '`i``x` ON "t""u"(a)']
 
@@ -1057,12 +1057,16 @@ def _only(f, kinds, required_prefixes, allowed_prefixes=()):
 _ANYKIND = ("rejected", "columns", "affinity", "without-rowid")
 
 # Matchers exist only for the findings that are still open.  The minimal statements of the repaired ones
-# (C07-01, -02, -04, -05, -06, -07, -08, -10, -11, -12, -14, -15) stay in corpus/C07: if one of them fails again nothing
+# (C07-01, -02, -04, -05, -06, -07, -08, -10, -11, -12, -14, -15, -16) stay in corpus/C07: if one of them fails again nothing
 # here matches it and the run reports a VIOLATION.
 MATCHERS = {
     "c07_strict": lambda f: _only(f, ("rejected",), ["trailer:strict"]),
     "c07_slash_dashdash_in_expr": lambda f: (_only(f, ("rejected",), ["expr:slash"], ["expr:"]) or _only(f, ("rejected",), ["expr:dashdash"], ["expr:"])
                                              or _only(f, ("rejected",), ["ident:comment-chars"]) or _only(f, ("rejected",), ["table-ident:comment-chars"])),
-    "c07_bracket_newline": lambda f: _only(f, ("rejected",), ["ident:newline-in-bracket"]) or _only(f, ("rejected",), ["table-ident:newline-in-bracket"]),
+    "c07_bracket_edge": lambda f: (_only(f, _ANYKIND, ["ident:bracket-edge"], ["ident:quote-char-in-bracket"])
+                                   or _only(f, _ANYKIND, ["table-ident:bracket-edge"], ["table-ident:quote-char-in-bracket"])),
+    "c07_generated_comment_type": lambda f: _only(f, ("affinity",), ["cons:generated", "cmt:cons-inner"],
+                                                  ["cmt2:cons-inner", "cmtonly:cons-inner", "cmtadj:cons-inner", "ws1:cons-inner",
+                                                   "wsrun:cons-inner", "slash-star-slash:cons-inner"]),
     "c07_ident_whitespace": lambda f: _only(f, _ANYKIND, ["ident:whitespace"]) or _only(f, _ANYKIND, ["table-ident:whitespace"]),
 }
